@@ -185,8 +185,18 @@ def _prefixed(flags, prefix):
     return sim
 
 
+REAL_CASES = [
+    {"flags": "dk", "labels": [0, 0, 0, 1, 0, 0, 1], "real": True},          # the fast-path window against a last drop
+    {"flags": "dk", "labels": [0, 0, 0, 0, 0, 1, 1], "real": True},          # drop completely, then re-subscribe
+    {"flags": "kk", "labels": [0, 0, 0, 1, 1], "real": True},                # second handle through the fast path
+    {"flags": "dd", "labels": [0, 0, 0, 1, 1, 0, 1], "real": True},          # two handles, both dropped
+]
+
+
 def gen(tier, rng):
     quick = tier == "quick"
+    for c in REAL_CASES:
+        yield dict(c)
     for flags in ["dk", "dd", "kd", "kk"]:
         for prefix, cap in ((SEQ_START, None), ([], 30 if quick else None)):
             out = []
@@ -214,8 +224,19 @@ def gen(tier, rng):
             yield {"flags": flags, "labels": _walk(_prefixed(flags, prefix), rng, prefix)}
 
 
+def _labels(case):
+    """real-manager runs: the manager handles every message at once = an M after every thread step"""
+    if not case.get("real"):
+        return case["labels"]
+    out = []
+    for l in case["labels"]:
+        if l != "M":
+            out += [l, "M"]
+    return out
+
+
 def harness_line(case):
-    return "%s %s" % (case["flags"], " ".join(str(l) for l in case["labels"]))
+    return "%s%s %s" % ("real " if case.get("real") else "", case["flags"], " ".join(str(l) for l in case["labels"]))
 
 
 def _clabels(ls):
@@ -227,11 +248,13 @@ def _cflags(f):
 
 
 def coq_model(case):
-    return "model_line %s %s %s" % ("true" if FIXED else "false", _cflags(case["flags"]), _clabels(case["labels"]))
+    return "model_line %s %s %s" % ("true" if FIXED else "false", _cflags(case["flags"]), _clabels(_labels(case)))
 
 
 def _parse(impl):
     parts = [p.strip() for p in impl.split("|")]
+    if len(parts) == 2 and parts[1].startswith("left=") and parts[1][5:].isdigit():
+        parts = [parts[0], ",".join(["U"] * int(parts[1][5:])), "sub=?"]
     if len(parts) != 3 or not parts[2].startswith("sub="):
         return None
     kept, done = [], True
@@ -255,12 +278,23 @@ def coq_oracle(case, impl):
         return "false"
     kept, done, log, sub = p
     ck = "[" + ";".join("(%s, %d)" % ("true" if l else "false", c) for l, c in kept) + "]"
+    if case.get("real"):
+        return "check_real %s %s %d" % (ck, "true" if done else "false", len(log))
     cl = "[" + ";".join("true" if x == "S" else "false" for x in log) + "]"
     return "check %s %s %s %s" % (ck, "true" if done else "false", cl, "true" if sub else "false")
 
 
 def _sim(case):
-    return Sim(case["flags"], FIXED).run(case["labels"])
+    return Sim(case["flags"], FIXED).run(_labels(case))
+
+
+def agree(case, impl, model):
+    if not case.get("real"):
+        return impl == model
+    pi, pm = _parse(impl), _parse(model)
+    if pi is None or pm is None:
+        return False
+    return impl.split("|")[0].strip() == model.split("|")[0].strip() and pi[2].count("U") == pm[2].count("U")
 
 
 def nontrivial(case, impl):
